@@ -36,6 +36,10 @@ def calls(f, path):
     return [t for _, t in f.calls() if f.callee(t) == path]
 
 
+def is_c(e, suffix):
+    return e[0] == 'call' and isinstance(e[1], str) and e[1].endswith(suffix)
+
+
 def r16_1(ctx):
     R = ctx.rule('R16.1', 'every output-accumulating descent that tests finality also reads the final output', floor=3)
     lib = ctx.lib
@@ -124,6 +128,23 @@ def r16_1(ctx):
             ctx.check(R, ok_upd, 'step-consumes-output', 'a descent step does not subtract the output of the transition it follows from the remaining value: %s' % fmt(upd)[:100], fn=g)
     if n_true == 0:
         ctx.undecided(R, 'success-condition', 'no path returning true found in %s' % g.path, fn=g)
+    # failure is reported only when, at the node the descent stands on, NO transition has an output <= the remaining value
+    # (take_while(..).last() is None): any other early `false` gives up on values that a final node or a later transition would serve
+    import vsplit as _vs
+    for p in explore(g, max_visits=1, havoc=True):
+        if p.end != 'return' or p.ret() != ('const', 0):
+            continue
+        why = [d for d in p.cdecisions() if d[2][0] == 'discr' and any(is_c(x, 'Iterator::last') or is_c(x, 'Iterator::find') or is_c(x, 'Iterator::rfind') or is_c(x, '::rposition') or is_c(x, '::position') for x in walk(d[2]))]
+        if why and why[-1][3] == 0 and why[-1][0] == max(d[0] for d in p.decisions):
+            ctx.check(R, True, 'failure-condition', '', fn=g)
+        elif why and why[-1][3] == 0:
+            ctx.check(R, True, 'failure-condition', '', fn=g)
+        else:
+            last = p.decisions[-1][2] if p.decisions else ('?',)
+            if any(x[0] == 'field' and x[2] == 'out' for x in walk(last)) or any(is_c(x, 'Output::value') for x in walk(last)) or any(is_c(x, 'map_or') or is_c(x, 'is_some_and') for x in walk(last)):
+                ctx.violation(R, 'failure-condition', 'the inverse lookup gives up (returns false) on a test that is not "no transition of this node has an output <= the remaining value": %s' % fmt(last)[:100], fn=g)
+            else:
+                ctx.undecided(R, 'failure-condition', 'a path returning false is not justified by an exhausted transition choice: %s' % fmt(last)[:100], fn=g)
     # the node a step starts from must have been tested for success first (the root included: the empty key is a key)
     nodes = [l for l in g.locals if g.local_ty(l).startswith('raw::node::Node<') and g.locals[l].get('name')]
     n_chk = 0
@@ -224,6 +245,8 @@ def r16_2(ctx, g):
             some_ok = some_ok or (fresh and val_ok and is_buf and dec and dec[-1][3] == 1)
         elif rv[0] == 'agg' and rv[1].endswith('Option::None'):
             none_ok = none_ok or (dec and dec[-1][3] == 0)
+            if dec and dec[-1][3] == 1:
+                ctx.violation(R, 'delegation', 'get_key answers None on a path where get_key_into reported success: a key that exists for this value (the empty key, if the extra test is on the buffer) is withheld', fn=gk)
     ctx.check(R, some_ok and none_ok, 'delegation', 'get_key is not "Some(buffer filled by get_key_into(value, fresh buffer)) if it returned true, None otherwise"', fn=gk)
     # pass-through of the public get_key_into
     for p in explore(gki, max_visits=1):
